@@ -746,6 +746,16 @@ selftest(
            "            with system._unscaled_context(residuals=[residuals]):\n                residuals.set_val(outputs.asarray() - outputs_n)", 'C08.state'),
     Mutant('state-solve-linear', _EC, "                with self._unscaled_context(outputs=[d_outputs], residuals=[d_residuals]):\n                    d_outputs.set_vec(d_residuals)",
            "                with self._unscaled_context(residuals=[d_residuals]):\n                    d_outputs.set_vec(d_residuals)", 'C08.state'),
+    Mutant('state-prefix-resid-flag-only', _EC, "            if self._has_resid_scaling or self._has_output_scaling:\n                with self._unscaled_context(outputs=[d_outputs], residuals=[d_residuals]):\n                    d_outputs.set_vec(d_residuals)",
+           "            if self._has_resid_scaling:\n                with self._unscaled_context(outputs=[d_outputs], residuals=[d_residuals]):\n                    d_outputs.set_vec(d_residuals)", 'C08.state'),
+    Mutant('state-group-output-flag-only', 'openmdao/core/group.py', "                if self._has_resid_scaling or self._has_output_scaling:\n                    with self._unscaled_context(outputs=[d_outputs], residuals=[d_residuals]):\n                        d_residuals.set_vec(d_outputs)",
+           "                if self._has_output_scaling:\n                    with self._unscaled_context(outputs=[d_outputs], residuals=[d_residuals]):\n                        d_residuals.set_vec(d_outputs)", 'C08.state'),
+    Mutant('state-group-rev-only-outputs-unscaled', 'openmdao/core/group.py', "                    with self._unscaled_context(outputs=[d_outputs], residuals=[d_residuals]):\n                        d_residuals.set_vec(d_outputs)",
+           "                    with self._unscaled_context(outputs=[d_outputs]):\n                        d_residuals.set_vec(d_outputs)", 'C08.state'),
+    Twin('twin-state-always-context', _EC, "            if self._has_resid_scaling or self._has_output_scaling:\n                with self._unscaled_context(outputs=[d_outputs], residuals=[d_residuals]):\n                    d_outputs.set_vec(d_residuals)\n            else:\n                d_outputs.set_vec(d_residuals)",
+         "            with self._unscaled_context(outputs=[d_outputs], residuals=[d_residuals]):\n                d_outputs.set_vec(d_residuals)"),
+    Twin('twin-state-flags-swapped', _EC, "            if self._has_resid_scaling or self._has_output_scaling:\n                with self._unscaled_context(outputs=[d_outputs], residuals=[d_residuals]):\n                    d_outputs.set_vec(d_residuals)",
+         "            if self._has_output_scaling or self._has_resid_scaling:\n                with self._unscaled_context(outputs=[d_outputs], residuals=[d_residuals]):\n                    d_outputs.set_vec(d_residuals)"),
     Mutant('who-extra-call', 'openmdao/core/group.py', "        vec_inputs = self._vectors['input'][vec_name]\n",
            "        vec_inputs = self._vectors['input'][vec_name]\n        self._vectors['output'][vec_name].scale_to_phys()\n", 'C08.who', nth=0),
     Mutant('who-transfer-mode', 'openmdao/core/group.py', "                    vec_inputs.scale_to_phys(mode='rev')", "                    vec_inputs.scale_to_phys()", 'C08.who'),
